@@ -235,6 +235,8 @@ def run(tier, seed):
         ck.unproved("correspondence-broken", {"why": "runner does not build against /repo", "error": getattr(ck, "build_error", "")})
         return ck.finish()
     pool = RunnerPool()
+    import time as _t
+    log(f"[C06] proof+build done at {round(_t.time() - ck.t0)}s")
     fails = []
     # known findings: replay the witnesses first
     wit = [{"key": f"witness:{wid}", "src": src, "syntax": "scss", "wtag": tag} for wid, src, tag in WITNESSES]
@@ -258,8 +260,11 @@ def run(tier, seed):
     log(f"[C06] tie: {len(tcases)} trees, disagreements={ck.cov['model_disagreements']}")
     # direct
     fails += compare_styles(ck, pool, [{"key": "tree:" + str(i), "src": c["src"], "syntax": "scss"} for i, c in enumerate(tcases)], "gen-tree")
+    log(f"[C06] gen-tree done at {round(_t.time() - ck.t0)}s")
     fails += compare_styles(ck, pool, probe_cases(ck.rng, 10 ** 6 if tier == "thorough" else 700), "probe")
+    log(f"[C06] probes done at {round(_t.time() - ck.t0)}s")
     fails += compare_styles(ck, pool, [{"key": "prog:" + str(i), "src": cc.gen_program(ck.rng), "syntax": "scss"} for i in range(n_prog)], "gen-prog")
+    log(f"[C06] gen-prog done at {round(_t.time() - ck.t0)}s")
     cs = cc.corpus_cases()
     if tier == "quick":
         idx = list(range(len(cs)))
